@@ -127,8 +127,10 @@ class Sut:
             out.append(ctx)
         return out
 
-    def nav(self, ri, path):
-        """-> Element or ElementProxy reached by attribute reads along `path`."""
+    def nav(self, ri, path, px=False):
+        """-> Element or ElementProxy reached by attribute reads along `path`.  px: the first repetition
+        of an existing child is addressed the way most callers do it, through the proxy itself
+        (s.pid_3.cx_1 = v) instead of by index (s.pid_3[0].cx_1 = v); both spell the same element."""
         cur = self.roots[ri]
         ctxs = self.ctx_path(ri, path)
         for i, (t, key, r, sp) in enumerate(path):
@@ -138,7 +140,7 @@ class Sut:
                 raise NavError('no child %s' % attr)
             n = len(proxy)
             if r < n:
-                cur = proxy[r]
+                cur = proxy if (px and r == 0) else proxy[r]
             elif n == 0 and r == 0:
                 cur = proxy
             else:
@@ -191,7 +193,7 @@ class Sut:
             self.make_root(op['spec'])
             return None
         if k == 'set':
-            P = self.nav(ri, op['p'])
+            P = self.nav(ri, op['p'], op.get('px', False))
             step = op['c']
             attr = op.get('attr') or self.attr_of(ri, op['p'], step)
             val = self.make_value(op['v'], op)
@@ -342,7 +344,7 @@ class Sut:
             h.value = op['text']
             return None
         if k == 'del':
-            P = self.nav(ri, op['p'])
+            P = self.nav(ri, op['p'], op.get('px', False))
             via = op.get('via', 'attr')
             if via in ('attr', 'item'):
                 step = op['c']
@@ -359,7 +361,7 @@ class Sut:
                 P.children.remove(P.children[op['ci']])
             return None
         if k == 'value':
-            P = self.nav(ri, op['p'])
+            P = self.nav(ri, op['p'], op.get('px', False))
             if op.get('bdt'):
                 from hl7apy.factories import datatype_factory
                 P.value = datatype_factory(op['bdt'][0], op['bdt'][1], self.meta[ri]['version'], self.level)
@@ -656,6 +658,8 @@ class HistoryWorld:
                     return 'lost'
                 new = src.clone()
                 new.key = key
+                if EM.has_empty(new):
+                    sut.count_unknown = True     # (C11.write counts elements: see EM.has_empty)
             elif 'inst' in v:
                 i = v['inst']
                 if i.get('text') is None:
@@ -909,14 +913,16 @@ class HistoryWorld:
                     s.wrote_invalid = True
                 if read_like:
                     self.check_c11_read(s, step, op, before, after, ret)
+                s.count_unknown = False
                 delta = self.model_apply(s, op)
                 if delta == 'lost' or delta is None:
                     s.models[op.get('root', 0)] = None
                     self.probe('model_lost')
                 else:
                     self.check_c09(s, step, op, op.get('root', 0))
-                    if ids_before is not None and not op.get('bad'):
+                    if ids_before is not None and not op.get('bad') and not getattr(s, 'count_unknown', False):
                         self.check_c11_write(s, step, op, ids_before, delta)
+                    s.count_unknown = False
                     if self.case.get('mix') == 'c04' and not s.wrote_invalid and op.get('root', 0) == 0:
                         from models import validator_model as VM
                         if VM.holds_degraded_field(s.models[0], s.meta[0]['version']):
